@@ -6,6 +6,7 @@ import (
 	"encoding/json"
 	"fmt"
 	"hash/fnv"
+	"net/url"
 	"sort"
 	"strings"
 	"sync"
@@ -64,8 +65,40 @@ func foldEvents(evs []tapEvent, zkPath string) string {
 			delete(m, p)
 			continue
 		}
-		var u struct{ Weights map[string]float64 }
+		var u struct {
+			Weights    map[string]float64
+			Properties map[string]json.RawMessage `json:"uriSpecificProperties"`
+			Partitions map[string]json.RawMessage `json:"partitionDesc"`
+		}
 		if err := json.Unmarshal(e.data, &u); err != nil || len(u.Weights) == 0 {
+			continue
+		}
+		// an announcement naming something that is not a URL is malformed as a whole
+		bad := false
+		for _, hs := range []func(func(string)){
+			func(f func(string)) {
+				for h := range u.Weights {
+					f(h)
+				}
+			},
+			func(f func(string)) {
+				for h := range u.Properties {
+					f(h)
+				}
+			},
+			func(f func(string)) {
+				for h := range u.Partitions {
+					f(h)
+				}
+			},
+		} {
+			hs(func(h string) {
+				if _, err := url.Parse(h); err != nil {
+					bad = true
+				}
+			})
+		}
+		if bad {
 			continue
 		}
 		m[p] = u.Weights
@@ -191,9 +224,28 @@ func tapBubble(c *harness.Ctx) {
 	if !check("after the initial load") {
 		return
 	}
+	hold := c.Cfg["hold"] != ""
+	z.Hold = hold
 	nstim := 3 + c.Choose(9, "nstimuli")
 	for i := 0; i < nstim; i++ {
-		switch c.C.Weighted("stimulus", 8, 2, 1, 1, 1, 1) {
+		w6, w7 := 0, 0
+		if hold {
+			w6, w7 = 6, 2
+		}
+		switch c.C.Weighted("stimulus", 8, 2, 1, 1, 1, 1, w6, w7) {
+		case 6:
+			// one watch notification reaches the client; further changes may land before the next one
+			if z.DeliverOne() {
+				desc = append(desc, "deliver one notification")
+				c.Probe("notification-delivered-singly")
+			} else {
+				desc = append(desc, "deliver (none pending)")
+			}
+		case 7:
+			desc = append(desc, "deliver all notifications")
+			for z.DeliverOne() {
+				synctest.Wait()
+			}
 		case 0:
 			a := genAnnounce(c)
 			desc = append(desc, fmt.Sprintf("announce %s kind=%d %v", a.node, a.kind, a.hosts))
@@ -232,8 +284,15 @@ func tapBubble(c *harness.Ctx) {
 			return
 		}
 	}
+	for z.DeliverOne() {
+		synctest.Wait()
+	}
+	z.Hold = false
 	time.Sleep(45 * time.Second)
 	synctest.Wait()
+	for z.DeliverOne() {
+		synctest.Wait()
+	}
 	if !check("after faults stopped and 45 virtual seconds passed") {
 		return
 	}
